@@ -631,5 +631,272 @@ Proof.
   - unfold num_text at 1 2. cbn [app]. split_here. rewrite bytes_app.
     replace (bytes b + bytes (c :: ds) - bytes b) with (bytes (c :: ds)) by lia. rewrite split_b_app. cbn [fst].
     change (c :: ds) with (num_text c [] ds) at 1. rewrite (interp_dec c ds C D).
-    destruct (interpret_ok 10 0 (c :: ds)); mred; cbn [finish]; rewrite <- app_assoc; reflexivity.
+    destruct (interpret_ok 10 0 (c :: ds)); mred; cbn [finish]; unfold num_text; cbn [app]; rewrite <- ?app_assoc; reflexivity.
 Qed.
+
+(** signed decimal *)
+Lemma tail_signed b c ds rest e : ((c =? 43) || (c =? 45)) = true -> forallb is_ascii_digit ds = true ->
+  finish (nb_tail (bytes b) c 10 (stt (b ++ num_text c [] ds) rest e))
+  = outcome (b ++ [c]) e (hand_tail c 10 (if c =? 43 then 1 else if c =? 45 then 2 else 0) [] ds rest).
+Proof.
+  intros C D. unfold nb_tail, hand_tail, g_error.
+  change (10 =? 10) with true. change (10 =? 2) with false.
+  apply orb_true_iff in C. destruct C as [C|C]; apply N.eqb_eq in C; subst c.
+  - change (is_ascii_digit 43) with false. change (43 =? 43) with true. cbv iota. change (1 =? 0) with false. mred.
+    unfold num_text at 1 2. cbn [app]. split_here. rewrite bytes_app.
+    replace (bytes b + bytes (43 :: ds) - bytes b) with (bytes (43 :: ds)) by lia. rewrite split_b_app. cbn [fst].
+    change (43 :: ds) with (num_text 43 [] ds) at 1. rewrite (interp_plus ds D).
+    destruct (interpret_ok 10 1 ds); mred; cbn [finish]; unfold num_text; cbn [app]; rewrite <- ?app_assoc; reflexivity.
+  - change (is_ascii_digit 45) with false. change (45 =? 43) with false. change (45 =? 45) with true.
+    cbv iota. change (2 =? 0) with false. mred.
+    unfold num_text at 1 2. cbn [app]. split_here. rewrite bytes_app.
+    replace (bytes b + bytes (45 :: ds) - bytes b) with (bytes (45 :: ds)) by lia. rewrite split_b_app. cbn [fst].
+    change (45 :: ds) with (num_text 45 [] ds) at 1. rewrite (interp_minus ds D).
+    destruct (interpret_ok 10 2 ds); mred; cbn [finish]; unfold num_text; cbn [app]; rewrite <- ?app_assoc; reflexivity.
+Qed.
+
+Lemma cursor_plus2 b x ds : (bytes (b ++ 48 :: x :: ds) =? bytes b + 2) = (match ds with [] => true | _ :: _ => false end) \/ 128 <= x.
+Proof.
+  destruct (x <? 128) eqn:X; [left|right; apply N.ltb_ge; exact X].
+  rewrite bytes_app. cbn [bytes]. change (utf8_len 48) with 1. unfold utf8_len at 1. rewrite X.
+  destruct ds as [|d ds']; cbn [bytes].
+  - apply N.eqb_eq. lia.
+  - apply N.eqb_neq. pose proof (utf8_len_pos d). lia.
+Qed.
+
+(** 0x / 0b *)
+Lemma tail_radix b base x (p : N -> bool) ds rest e :
+  (base = 16 /\ x = 120 /\ p = is_ascii_hexdigit) \/ (base = 2 /\ x = 98 /\ p = is_bin_digit) ->
+  forallb p ds = true ->
+  finish (nb_tail (bytes b) 48 base (stt (b ++ num_text 48 [x] ds) rest e))
+  = outcome (b ++ [48]) e (hand_tail 48 base 0 [x] ds rest).
+Proof.
+  intros SH D. unfold nb_tail, hand_tail, g_error.
+  assert (B10 : (base =? 10) = false) by (destruct SH as [(-> & _)|(-> & _)]; reflexivity).
+  rewrite B10. mred. unfold num_text. cbn [app].
+  destruct (cursor_plus2 b x ds) as [CP|CP]; [|destruct SH as [(_ & -> & _)|(_ & -> & _)]; discriminate CP || lia].
+  rewrite CP. destruct ds as [|d ds'].
+  - (* identifier 0x / 0b *)
+    mred. fold (stt (b ++ [48; x]) rest e). rewrite (run_identifier b [48; x] rest e).
+    destruct (eat_while is_identifier_continue rest) as [a r']. cbn [finish app].
+    destruct (lookup keyword_table (48 :: x :: a)); mred; rewrite <- !app_assoc; reflexivity.
+  - mred. split_here. rewrite bytes_app.
+    replace (bytes b + bytes (48 :: x :: d :: ds') - bytes b) with (bytes (48 :: x :: d :: ds')) by lia.
+    rewrite split_b_app. cbn [fst].
+    destruct SH as [(-> & -> & ->)|(-> & -> & ->)].
+    + change (48 :: 120 :: d :: ds') with (num_text 48 [120] (d :: ds')) at 1. rewrite (interp_hex _ D).
+      destruct (interpret_ok 16 0 (d :: ds')); mred; cbn [finish]; unfold num_text; cbn [app]; rewrite <- ?app_assoc; reflexivity.
+    + change (48 :: 98 :: d :: ds') with (num_text 48 [98] (d :: ds')) at 1. rewrite (interp_bin _ D).
+      destruct (interpret_ok 2 0 (d :: ds')); mred; cbn [finish]; unfold num_text; cbn [app]; rewrite <- ?app_assoc; reflexivity.
+Qed.
+
+Lemma fn_body_finish m st : fn_body m st = finish (m st).
+Proof. unfold fn_body, finish. destruct (m st) as [[a|k| |] st']; reflexivity. Qed.
+
+Lemma eat_while_forall (p : N -> bool) s a r : eat_while p s = (a, r) -> forallb p a = true.
+Proof.
+  revert a r. induction s as [|c s IH]; intros a r H; cbn [eat_while] in H.
+  - inversion H. reflexivity.
+  - destruct (p c) eqn:P.
+    + destruct (eat_while p s) as [a' r'] eqn:E. inversion H; subst. cbn [forallb]. rewrite P. apply (IH a' r). reflexivity.
+    + inversion H; subst. reflexivity.
+Qed.
+
+Lemma bind_run {A B} (m : M A) (f : A -> M B) st a st' : m st = (Norm a, st') -> bind m f st = f a st'.
+Proof. unfold bind. intros ->. reflexivity. Qed.
+Lemma bind_ret_run {A B} (m : M A) (f : A -> M B) st k st' : m st = (Ret k, st') -> bind m f st = (Ret k, st').
+Proof. unfold bind. intros ->. reflexivity. Qed.
+
+Lemma agrees_number b c s e : (is_ascii_digit c || (c =? 45) || (c =? 43)) = true ->
+  g_number (bytes b) c (stt (b ++ [c]) s e) = outcome (b ++ [c]) e (number c s).
+Proof.
+  intros CC. rewrite g_number_decomp, number_staged, fn_body_finish.
+  pose proof (nb_first_run c (b ++ [c]) s e) as F1.
+  destruct (negb (peek_digit s) && (c =? 43)) eqn:P.
+  { rewrite (bind_ret_run _ _ _ _ _ F1). cbn [finish]. mred. rewrite app_nil_r. reflexivity. }
+  destruct (negb (peek_digit s) && (c =? 45)) eqn:M.
+  { rewrite (bind_ret_run _ _ _ _ _ F1). cbn [finish]. mred. rewrite app_nil_r. reflexivity. }
+  rewrite (bind_run _ _ _ _ _ F1). clear F1. cbv zeta.
+  pose proof (nb_base_run c (b ++ [c]) s e) as F2.
+  destruct (num_pfx c s) as [[base pfx] s1] eqn:NP.
+  rewrite (bind_run _ _ _ _ _ F2). clear F2.
+  assert (SH : (base = 10 /\ pfx = []) \/ (c = 48 /\ base = 16 /\ pfx = [120]) \/ (c = 48 /\ base = 2 /\ pfx = [98])).
+  { unfold num_pfx in NP. destruct (c =? 48) eqn:Z.
+    - apply N.eqb_eq in Z. destruct (hd_eqb 98 s); [inversion NP; auto|].
+      destruct (hd_eqb 120 s); inversion NP; auto.
+    - inversion NP; auto. }
+  assert (B3 : base = 2 \/ base = 10 \/ base = 16) by (destruct SH as [(-> & _)|[(_ & -> & _)|(_ & -> & _)]]; auto).
+  pose proof (nb_digits_run base ((b ++ [c]) ++ pfx) s1 e B3) as F3.
+  destruct (if base =? 2 then eat_while is_bin_digit s1
+            else if base =? 10 then eat_while is_ascii_digit s1 else eat_while is_ascii_hexdigit s1) as [ds rest] eqn:ED.
+  rewrite (bind_run _ _ _ _ _ F3). clear F3.
+  replace (((b ++ [c]) ++ pfx) ++ ds) with (b ++ num_text c pfx ds)
+    by (unfold num_text; rewrite <- !app_assoc; reflexivity).
+  destruct SH as [(-> & ->)|[(-> & -> & ->)|(-> & -> & ->)]].
+  - (* decimal *)
+    change (10 =? 2) with false in ED. change (10 =? 10) with true in ED. cbv iota in ED.
+    pose proof (eat_while_forall _ _ _ _ ED) as D.
+    destruct (is_ascii_digit c) eqn:DC.
+    + destruct (digit_facts c DC) as (C43 & C45 & _). rewrite C43, C45. apply tail_dec; assumption.
+    + cbn [orb] in CC. apply tail_signed; [rewrite orb_comm; exact CC|exact D].
+  - change (16 =? 2) with false in ED. change (16 =? 10) with false in ED. cbv iota in ED.
+    pose proof (eat_while_forall _ _ _ _ ED) as D. change (48 =? 43) with false. change (48 =? 45) with false. cbv iota.
+    apply (tail_radix b 16 120 is_ascii_hexdigit); [left; auto|exact D].
+  - change (2 =? 2) with true in ED. cbv iota in ED.
+    pose proof (eat_while_forall _ _ _ _ ED) as D. change (48 =? 43) with false. change (48 =? 45) with false. cbv iota.
+    apply (tail_radix b 2 98 is_bin_digit); [right; auto|exact D].
+Qed.
+
+(** * next_token *)
+Lemma outcome_cons b c e x : outcome (b ++ [c]) e x = outcome b e (cons_lexeme c x).
+Proof. destruct x as [[[k eo] a] rest]. cbn [outcome cons_lexeme]. rewrite <- app_assoc. reflexivity. Qed.
+
+Lemma finish_outcome b e x : finish (outcome b e x) = outcome b e x.
+Proof. destruct x as [[[k eo] a] rest]. reflexivity. Qed.
+
+Ltac fold_state :=
+  match goal with
+  | |- context [{| l_s := {| sc_before := ?B; sc_after := ?S |}; l_error := ?E |}] => fold (stt B S E)
+  end.
+
+Ltac eval_closed :=
+  repeat match goal with
+  | |- context [N.eqb ?x ?y] =>
+      let v := eval vm_compute in (N.eqb x y) in
+      lazymatch v with true => change (N.eqb x y) with true | false => change (N.eqb x y) with false end
+  | |- context [is_whitespace ?x] =>
+      let v := eval vm_compute in (is_whitespace x) in
+      lazymatch v with true => change (is_whitespace x) with true | false => change (is_whitespace x) with false end
+  | |- context [is_ascii_digit ?x] =>
+      let v := eval vm_compute in (is_ascii_digit x) in
+      lazymatch v with true => change (is_ascii_digit x) with true | false => change (is_ascii_digit x) with false end
+  | |- context [is_identifier_start ?x] =>
+      let v := eval vm_compute in (is_identifier_start x) in
+      lazymatch v with true => change (is_identifier_start x) with true | false => change (is_identifier_start x) with false end
+  | |- context [g_is_identifier_start ?x] =>
+      let v := eval vm_compute in (g_is_identifier_start x) in
+      lazymatch v with true => change (g_is_identifier_start x) with true | false => change (g_is_identifier_start x) with false end
+  end.
+
+Ltac conc := eval_closed; mred.
+
+(** a call of a scanner function in tail position, against  cons_lexeme c (f r) *)
+Ltac call L := fold_state; rewrite L; rewrite finish_outcome, outcome_cons; reflexivity.
+
+Lemma next_token_nil b e : g_next_token (stt b [] e) = outcome b e (lex_one []).
+Proof.
+  change (lex_one []) with (tok T_Eof [] []).
+  unfold g_next_token. rewrite fn_body_finish. mred. unfold opt_some, opt_is, opt_none, opt_get. mred.
+  cbn [finish]. rewrite app_nil_r. reflexivity.
+Qed.
+
+Lemma ws_lexres c r :
+  (let '(a, rest) := eat_while is_ascii_whitespace r in tok T_Whitespace (c :: a) rest)
+  = cons_lexeme c (let '(a, rest) := eat_while is_ascii_whitespace r in tok T_Whitespace a rest).
+Proof. destruct (eat_while is_ascii_whitespace r); reflexivity. Qed.
+
+Lemma next_token_cons b c r e : g_next_token (stt b (c :: r) e) = outcome b e (lex_one (c :: r)).
+Proof.
+  rewrite lex_one_eq. unfold g_next_token. rewrite fn_body_finish. mred.
+  unfold opt_some, opt_is, opt_none, opt_get. mred.
+  change (g_is_identifier_start c) with (is_identifier_start c).
+  (* white space *)
+  destruct (is_whitespace c) eqn:WS.
+  { fold_state. rewrite agrees_whitespace, finish_outcome. destruct (eat_while is_ascii_whitespace r).
+    mred. rewrite <- !app_assoc. reflexivity. }
+  (* '/' *)
+  destruct (c =? 47) eqn:SL.
+  { apply N.eqb_eq in SL. subst c. destruct r as [|x r']; cbn [hd_eqb tl]; conc.
+    - cbn [finish]. reflexivity.
+    - rewrite (N.eqb_sym 47 x). destruct (x =? 47) eqn:X1; mred.
+      + apply N.eqb_eq in X1. subst x. fold_state. rewrite agrees_line_comment, finish_outcome.
+        destruct (eat_until is_newline r'). mred. rewrite <- !app_assoc. reflexivity.
+      + rewrite (N.eqb_sym 42 x). destruct (x =? 42) eqn:X2; mred.
+        * apply N.eqb_eq in X2. subst x. fold_state. rewrite agrees_block_comment, finish_outcome.
+          destruct (block_comment 0 r'). mred. rewrite <- !app_assoc. reflexivity.
+        * conc. cbn [finish]. reflexivity. }
+  cbn [andb].
+  (* numbers *)
+  destruct (is_ascii_digit c) eqn:DG.
+  { fold_state. rewrite (agrees_number b c r e) by (rewrite DG; reflexivity).
+    rewrite finish_outcome, outcome_cons. reflexivity. }
+  destruct (c =? 45) eqn:MI.
+  { apply N.eqb_eq in MI. subst c. fold_state. rewrite (agrees_number b 45 r e eq_refl).
+    rewrite finish_outcome, outcome_cons. reflexivity. }
+  destruct (c =? 43) eqn:PL.
+  { apply N.eqb_eq in PL. subst c. fold_state. rewrite (agrees_number b 43 r e eq_refl).
+    rewrite finish_outcome, outcome_cons. reflexivity. }
+  (* identifiers *)
+  destruct (is_identifier_start c) eqn:ID.
+  { fold_state. rewrite agrees_identifier, finish_outcome, outcome_cons. reflexivity. }
+  destruct (c =? 34) eqn:QU. { call agrees_string. }
+  destruct (c =? 36) eqn:DO. { call agrees_var_name. }
+  (* '[' and "[{" *)
+  destruct (c =? 91) eqn:LB.
+  { apply N.eqb_eq in LB. subst c. destruct r as [|x r']; cbn [hd_eqb tl andb]; conc.
+    - cbn [finish]. reflexivity.
+    - rewrite (N.eqb_sym 123 x). destruct (x =? 123) eqn:X1; mred.
+      + apply N.eqb_eq in X1. subst x. fold_state. rewrite agrees_code_fragment, finish_outcome.
+        destruct (code_fragment r') as [[[k eo] a] rest]. mred. rewrite <- !app_assoc. reflexivity.
+      + conc. cbn [finish]. reflexivity. }
+  cbn [andb].
+  destruct (c =? 33) eqn:BA. { call agrees_bangoperator. }
+  destruct (c =? 35) eqn:HA. { call agrees_preprocessor. }
+  (* single-character punctuation, in the order of the source *)
+  repeat match goal with
+  | |- context [c =? ?K] =>
+      lazymatch K with 46 => fail | _ => idtac end;
+      let E := fresh "E" in
+      destruct (c =? K) eqn:E;
+      [ apply N.eqb_eq in E; subst c; conc; cbn [finish]; reflexivity | ]
+  end.
+  (* '.', "..", "..." *)
+  destruct (c =? 46) eqn:DT.
+  { apply N.eqb_eq in DT. subst c. destruct r as [|x r']; cbn [hd_eqb tl]; conc.
+    - cbn [finish]. reflexivity.
+    - rewrite (N.eqb_sym 46 x). destruct (x =? 46) eqn:X1; mred.
+      + destruct r' as [|y r'']; cbn [hd_eqb tl]; mred.
+        * cbn [finish]. apply N.eqb_eq in X1. subst x. rewrite <- !app_assoc. reflexivity.
+        * rewrite (N.eqb_sym 46 y). apply N.eqb_eq in X1. subst x.
+          destruct (y =? 46) eqn:Y1; mred; cbn [finish]; [apply N.eqb_eq in Y1; subst y|]; rewrite <- !app_assoc; reflexivity.
+      + cbn [finish]. reflexivity. }
+  (* anything else: unexpected character *)
+  assert (LK : lookup1 punct_table c = None).
+  { unfold punct_table. cbn [lookup1].
+    repeat match goal with H : (c =? ?K) = false |- _ => rewrite (N.eqb_sym K c), H; clear H end.
+    reflexivity. }
+  rewrite LK. mred. cbn [finish]. reflexivity.
+Qed.
+
+Theorem next_token_eq b s e : g_next_token (stt b s e) = outcome b e (lex_one s).
+Proof. destruct s as [|c r]; [apply next_token_nil|apply next_token_cons]. Qed.
+
+(** * The whole token stream *)
+Lemma s_get_run b a rest e : s_get (bytes b) (bytes (b ++ a)) (stt (b ++ a) rest e) = (Norm a, stt (b ++ a) rest e).
+Proof.
+  mred. rewrite <- app_assoc, split_b_app. mred. rewrite bytes_app.
+  replace (bytes b + bytes a - bytes b) with (bytes a) by lia. rewrite split_b_app. reflexivity.
+Qed.
+
+Lemma drive_eq n : forall b s, gen_drive n (stt b s None) = map hand_view (lex_all n s).
+Proof.
+  induction n as [|n IH]; intros b s; [reflexivity|].
+  rewrite lex_all_unfold. cbn [gen_drive].
+  change (g_cursor (stt b s None)) with (Norm (bytes b), stt b s None). cbn [run_val].
+  unfold g_eat. rewrite fn_body_finish, next_token_eq, finish_outcome.
+  destruct (lex_one s) as [[[k eo] a] rest] eqn:L1. cbn [outcome run_val].
+  change (g_cursor (stt (b ++ a) rest (upd None eo))) with (Norm (bytes (b ++ a)), stt (b ++ a) rest (upd None eo)).
+  cbn [run_val]. unfold g_text. cbn [fst snd]. rewrite s_get_run. cbn [run_val].
+  pose proof (lex_one_err _ _ _ _ _ L1) as ER.
+  destruct (tk_eqb k T_Error) eqn:KE.
+  - apply LexBasics.tk_eqb_eq in KE. subst k. destruct eo as [x|]; [|exfalso; apply (proj1 ER); reflexivity].
+    change (tk_eqb T_Error T_Eof) with false. cbv iota.
+    change (run_val (g_take_error (stt (b ++ a) rest (upd None (Some x)))))
+      with (Some (Some (lex_err_msg x), stt (b ++ a) rest None)).
+    cbn [map hand_view option_map]. rewrite IH. reflexivity.
+  - destruct eo as [x|]; [exfalso; apply tk_eqb_neq in KE; apply KE; apply (proj2 ER); discriminate|].
+    cbn [upd]. destruct (tk_eqb k T_Eof); cbn [map hand_view option_map]; [reflexivity|]. rewrite IH. reflexivity.
+Qed.
+
+Theorem gen_lex_text_eq txt : gen_lex_text txt = map hand_view (lex_text txt).
+Proof. unfold gen_lex_text, lex_text. change (g_new txt) with (stt [] txt None). apply drive_eq. Qed.
